@@ -17,6 +17,7 @@ the concrete negation witnesses; the whole-file theorems for the installed db, t
 passwd and group are not machine-checked yet — they are exercised by `corr:formats` only.
 -/
 import Apko.Proofs.Lemmas.FormatsIndex
+import Apko.Proofs.Lemmas.FormatsPasswd
 
 namespace Apko.C16
 open Apko Apko.Formats
@@ -168,5 +169,76 @@ theorem group_empty_members_lost :
 theorem passwd_trim_lost :
     (parseUser " a:x:1:1::/:/bin/sh ".toList).map (fun u => (u.name, u.shell)) = some (['a'], "/bin/sh".toList) := by
   decide
+
+/-! ## passwd / group -/
+
+/-- `passwd_roundtrip` (struct → bytes → struct): `UserFile.Load` of what `UserFile.Write` wrote gives
+the entries back, for every list of well-formed entries (`WFUser`: fields free of `:`/LF/CR, ids in
+`uint32`, no white space at the start of the name or the end of the shell — F16f —, line within the
+scanner buffer). -/
+theorem passwd_roundtrip (us : List User) (h : ∀ u ∈ us, WFUser u = true) :
+    loadUsers (writeUsers us) = some us :=
+  loadWith_write parseUser renderUser userLine renderUser_eq us
+    (fun u hu => parseUser_userLine u (WFUser_spec u (h u hu)))
+    (fun u hu => userLine_lineSafe u (WFUser_spec u (h u hu)))
+    (fun u hu => (WFUser_spec u (h u hu)).fit)
+
+/-- `passwd_roundtrip` (bytes → struct → bytes): a canonical passwd file (every line LF-terminated,
+not padded with white space, within the scanner buffer, ids printed the way `%d` prints a `uint32`)
+that loads is reproduced byte for byte by writing what was loaded. -/
+theorem passwd_roundtrip_bytes (t : Text) (l : List User) (hc : canonText canonUserLine t = true)
+    (hl : loadUsers t = some l) : writeUsers l = t :=
+  write_loadWith parseUser renderUser canonUserLine
+    (fun l h => by unfold canonUserLine at h; simp only [Bool.and_eq_true] at h; exact h.1)
+    (fun l e h hp => renderUser_parseUser l e h hp) t l hc hl
+
+/-- `group_roundtrip` (struct → bytes → struct) for entries with at least one member (`WFGroup`) -/
+theorem group_roundtrip_partial (gs : List Group) (h : ∀ g ∈ gs, WFGroup g = true) :
+    loadGroups (writeGroups gs) = some gs :=
+  loadWith_write parseGroup renderGroup groupLine renderGroup_eq gs
+    (fun g hg => parseGroup_groupLine g (WFGroup_spec g (h g hg)))
+    (fun g hg => groupLine_lineSafe g (WFGroup_spec g (h g hg)))
+    (fun g hg => (WFGroup_spec g (h g hg)).fit)
+
+/-- `group_roundtrip` (bytes → struct → bytes); holds for member-less lines too -/
+theorem group_roundtrip_bytes (t : Text) (l : List Group) (hc : canonText canonGroupLine t = true)
+    (hl : loadGroups t = some l) : writeGroups l = t :=
+  write_loadWith parseGroup renderGroup canonGroupLine
+    (fun l h => by unfold canonGroupLine at h; simp only [Bool.and_eq_true] at h; exact h.1)
+    (fun l e h hp => renderGroup_parseGroup l e h hp) t l hc hl
+
+/-- the full statement of `group_roundtrip` (member list may be empty) … -/
+def group_roundtrip : Prop :=
+  ∀ gs : List Group, (∀ g ∈ gs, WFGroup { g with members := g.members ++ [['m']] } = true) →
+    loadGroups (writeGroups gs) = some gs
+
+def noMembers : Group := ⟨"nogroup".toList, ['x'], 65533, []⟩
+
+/-- … is false: F16e, a group without members reads back with one empty member -/
+theorem group_roundtrip_fails : ¬ group_roundtrip := by
+  intro h
+  have := h [noMembers] (by decide)
+  revert this
+  decide
+
+/-- the full statement of `passwd_roundtrip` without the padding clause of `WFUser` … -/
+def passwd_roundtrip_unpadded : Prop :=
+  ∀ us : List User, (∀ u ∈ us, WFUser { u with name := 'x' :: u.name, shell := u.shell ++ ['x'] } = true) →
+    loadUsers (writeUsers us) = some us
+
+/-- … is false: F16f -/
+theorem passwd_roundtrip_unpadded_fails : ¬ passwd_roundtrip_unpadded := by
+  intro h
+  have := h [⟨" a".toList, ['x'], 1, 1, [], ['/'], "/bin/sh ".toList⟩] (by decide)
+  revert this
+  decide
+
+def sampleUser : User := ⟨"build user".toList, ['x'], 4294967295, 0, "a, b".toList, "/home/build".toList, []⟩
+def sampleGroup : Group := ⟨"wheel".toList, [], 10, ["root".toList, [], "build user".toList]⟩
+
+example : WFUser sampleUser = true := by decide
+example : WFGroup sampleGroup = true := by decide
+example : canonText canonUserLine (writeUsers [sampleUser, sampleUser]) = true := by decide
+example : canonText canonGroupLine (writeGroups [sampleGroup, noMembers]) = true := by decide
 
 end Apko.C16
